@@ -139,7 +139,7 @@ Proof.
   intros Ha Hb. unfold map_merge. rewrite (first_dup_rel _ _ _ _ Ha Hb).
   assert (Hr : orel (Ok (VMap (a ++ b))) (Ok (VMap (a' ++ b')))).
   { constructor. constructor. apply Forall2_app'; auto. }
-  destruct (first_dup a' b') as [[|c k]|]; auto. constructor.
+  destruct (first_dup a' b') as [k|]; auto. constructor.
 Qed.
 
 (* ---------- arithmetic ---------- *)
